@@ -1,5 +1,6 @@
 import DryocVerif.Bytes
 import DryocVerif.Model.Utils
+import DryocVerif.Model.OnetimeAuth
 /-
 Code-shaped models of the remaining hand-written primitives:
 
@@ -342,10 +343,15 @@ def hmacChunks (H : Bytes → Bytes) (key : Bytes) (cs : List Bytes) : Outcome B
   | .panic => .panic
 
 /-- `crypto_auth_hmacsha512256_verify(mac, input, key)` (= `crypto_auth_verify`):
-`Ok(())` iff `mac.ct_eq(&computed_mac)`; `.ok ()` = `Ok(())`, `.err` = `Err(…)` -/
+`let mut computed_mac = Mac::default(); crypto_auth_hmacsha512256(&mut computed_mac, input, key);
+if mac.ct_eq(&computed_mac).unwrap_u8() == 1 { Ok(()) } else { Err(…) }`; `.ok ()` = `Ok(())`, `.err` = `Err(…)`.
+The comparison is `subtle`'s `ConstantTimeEq for [u8]` as modelled in `Model.OnetimeAuth.ctEq` (length test, then
+the AND of the byte-wise `ct_eq`s), NOT Lean's `=` (it was `if mac = computed` before the third review); that the
+two decide the same is a theorem (`Proofs.OnetimeAuth.ctEq_one_iff`, used in `Proofs.Core.hmacVerify_ok_iff` /
+`hmacVerify_err_iff`), not part of the definition. -/
 def hmacVerify (H : Bytes → Bytes) (mac msg key : Bytes) : Outcome Unit :=
   match hmac H key msg with
-  | .ok computed => if mac = computed then .ok () else .err
+  | .ok computed => if Model.OnetimeAuth.ctEq mac computed = 1 then .ok () else .err
   | .err => .err
   | .panic => .panic
 
